@@ -93,7 +93,7 @@ def phy_part(draw, memtype, nph):
 
 @st.composite
 def ctrl_part(draw, refresh=None, zqcs_ok=True, auto_precharge=None):
-    c = dict(cmd_buffer_depth=draw(st.sampled_from([2, 4, 8, 16, 3])), cmd_buffer_buffered=draw(st.booleans()),
+    c = dict(cmd_buffer_depth=draw(st.sampled_from([2, 4, 8, 16, 3, 1])), cmd_buffer_buffered=draw(st.booleans()),
              read_time=draw(st.sampled_from([0, 2, 3, 8, 32])), write_time=draw(st.sampled_from([0, 2, 3, 8, 16])),
              with_refresh=draw(st.booleans()) if refresh is None else refresh,
              refresh_postponing=draw(st.integers(1, 8)),
